@@ -1264,6 +1264,7 @@ class ContactHandler(Messenger, dbus.service.Object):
         # No further processing
         while self._tx_pend_start:
             item = self._tx_pend_start.pop(0)
+            self._tx_map.pop(item.transfer_id, None)
             self._logger.warning('Terminating and ignoring transfer %d', item.transfer_id)
             self.send_bundle_finished(
                 str(item.transfer_id),
